@@ -31,7 +31,7 @@ def generate(rng, n, tier, stats):
         op = rng.choice(OPS)
         stats['family'][fam] += 1; stats['operator'][op] += 1
         if fam == 'pair':
-            arrays, pool = c06.gen_family(rng, stats, nmax=2, allow_empty=False, dtype_choices=('f', 'i'), min_arrays=2)
+            arrays, pool = c06.gen_family(rng, stats, nmax=2, allow_empty=False, dtype_choices=('f', 'i'), min_arrays=2, same_ends=True)
             a, b = arrays
             if rng.random() < 0.15:   # a 0-d operand
                 b = rand_array(rng, ndim=0, dtype=rng.choice(['f', 'i']))
